@@ -147,8 +147,31 @@ def run(tier, res, replay=None):
         rp = json.load(open(replay))
         rp = rp.get('replay', rp)
         jobs = [(rp['label'], rp['spec'])]
+    # cores in which only some assembly types are grouped: the flows the
+    # optimiser writes into the input of the orificed sweep
+    ajobs = []
+    if not replay:
+        na = 12 if tier == 'quick' else 60
+        for k in range(na):
+            n = rng.choice([4, 7])
+            names = [rng.choice(['ta', 'ta', 'tb', 'tc']) for _ in range(n)]
+            if k % 4 == 0:
+                names = [x if x != 'tc' else 'ta' for x in names]   # all grouped
+            elif 'tc' not in names:
+                names[rng.randrange(n - 1)] = 'tc'   # ungrouped before a grouped one
+            grouped = [x for x in names if x != 'tc']
+            if len(grouped) < 3:
+                names = ['ta', 'tc', 'tb', 'ta'] + names[4:]
+                grouped = [x for x in names if x != 'tc']
+            pf = [round(rng.uniform(0.3, 1.0), 3) for _ in range(n)]
+            ajobs.append((f'apply{k}-n{n}', {
+                'seed': k, 'names': names, 'pf': pf,
+                'ng': rng.choice([2, 3]) if len(grouped) >= 4 else 2}))
+    elif 'names' in jobs[0][1]:
+        ajobs, jobs = jobs, []
     with ProcessPoolExecutor(max_workers=common.NCPU) as ex:
         traces = list(ex.map(orifice.history, jobs, chunksize=8))
+        traces += list(ex.map(orifice.apply_history, ajobs))
     # ---- TLC validates every recorded history
     nsh = min(common.NCPU, max(1, len(traces) // 50))
     shards = [traces[i::nsh] for i in range(nsh)]
